@@ -33,7 +33,7 @@ def register(R, P):
     prop("C08", EXECUTOR + ["CellsImpl.has_node", "TraceGraph.get_nodes_with", "TraceGraph.remove_with_descs", "TraceManager.clear_with_descs",
                             "CellsImpl.clear_all_values", "BaseSpaceImpl.on_delete"])
     prop("C13", ["BaseSpaceImpl.on_delete", "CellsImpl.clear_all_values", "CellsImpl.clear_value_at", "TraceManager.clear_obj",
-                 "TraceManager.clear_with_descs", "TraceGraph.clear_obj", "UserSpaceImpl.on_del_cells"],
+                 "TraceManager.clear_with_descs", "TraceGraph.clear_obj", "UserSpaceImpl.on_del_cells", "ItemSpaceParent._del_itemspace"],
          assumptions=["Impl.on_delete (null-impl handles), DynamicSpaceImpl/DynamicBase/UserSpaceImpl.on_delete, SpaceUpdater.del_defined_space and the "
                       "re-derivation of subs are covered by the bounded driver only"])
     prop("C09", ["CallStack.append", "CallStack.pop", "NonThreadedExecutor.eval_node", "CellsImpl.on_eval_formula",
@@ -78,6 +78,10 @@ def register4(R, P):
 
 
 def register5(R, P):
+    P["C07"] = {"targets": list(P["_itemspace"]), "shards": {},
+                "trusted_base": ["ItemSpaceImpl.on_delete (deletes the instance's own tree): marked deleted only; ImplDict.del_item = dict.__delitem__ (+ namespace notification, not modelled)"],
+                "assumptions": ["creation (on_eval_formula, ItemSpaceImpl construction, relative rebinding of the dynamic tree), evaluation inside an instance and isolation are covered by the "
+                                "bounded driver only; 'equal arguments give the same instance' rests on the executor contract (a held element is returned, C01) with has_node proved here"]}
     P["C11"] = {"targets": ["SpaceUpdater._execute_or_restore", "SpaceManager.set_cells_property", "CellsImpl.set_value_from_key", "CellsImpl._store_value",
                             "System.rename_model", "ModelImpl.rename"],
                 "shards": {"CellsImpl.set_value_from_key": 6},
